@@ -131,7 +131,21 @@ def same(o1, o2):
         return False
     if o1[0] == "err":
         return o1[1] == o2[1]
-    return o1[1] == o2[1] and EC.keys(o1) == EC.keys(o2)
+    return o1[1] == o2[1] and EC.keys(o1) == EC.keys(o2) and blank_descriptions(o1) == blank_descriptions(o2)
+
+
+def blank_descriptions(o):
+    """what the report graph says about the blank focus / value nodes of its results (the copy of their description taken from the
+    data graph): part of 'the same results' whatever container the data came in"""
+    rg = o[4] if len(o) > 4 else None
+    if rg is None:
+        return None
+    out = []
+    for r in o[2]:
+        for x in (r[0], r[1]):
+            if isinstance(x, rdflib.BNode):
+                out.append((x.n3(), sorted((p_.n3(), "_:b" if isinstance(o_, rdflib.BNode) else o_.n3()) for p_, o_ in rg.predicate_objects(x))))
+    return sorted(out)
 
 
 def main(tier, seed, replay=None):
